@@ -205,6 +205,17 @@ func (s *NumRangeShard) EqualStart(key interface{}, index int) bool {
 	return s.Shards[index].Start == v
 }
 
+// atoiDigits parses a run of decimal digits; unlike strconv.Atoi it does not
+// accept a leading sign, which is not part of a date.
+func atoiDigits(s string) (int, error) {
+	for i := 0; i < len(s); i++ {
+		if s[i] < '0' || s[i] > '9' {
+			return 0, strconv.ErrSyntax
+		}
+	}
+	return strconv.Atoi(s)
+}
+
 type DateYearShard struct {
 }
 
@@ -223,7 +234,7 @@ func (s *DateYearShard) getNumYear(key interface{}) (int, error) {
 		if len(val) < len("2006") {
 			return -1, NewInvalidDateFormatKeyError(key)
 		}
-		if v, err := strconv.Atoi(val[:4]); err != nil {
+		if v, err := atoiDigits(val[:4]); err != nil {
 			return -1, NewInvalidDateFormatKeyError(key)
 		} else {
 			return v, nil
@@ -284,7 +295,7 @@ func (s *DateMonthShard) getNumYearMonth(key interface{}) (int, error) {
 			return -1, NewInvalidDateFormatKeyError(key)
 		}
 		s := val[:4] + val[5:7]
-		if v, err := strconv.Atoi(s); err != nil {
+		if v, err := atoiDigits(s); err != nil {
 			return -1, NewInvalidDateFormatKeyError(key)
 		} else {
 			return v, nil
@@ -345,7 +356,7 @@ func (s *DateDayShard) getNumYearMonthDay(key interface{}) (int, error) {
 			return -1, NewInvalidDateFormatKeyError(key)
 		}
 		s := val[:4] + val[5:7] + val[8:10]
-		if v, err := strconv.Atoi(s); err != nil {
+		if v, err := atoiDigits(s); err != nil {
 			return -1, NewInvalidDateFormatKeyError(key)
 		} else {
 			return v, nil
